@@ -114,6 +114,9 @@ func TestVerifC01Tamper(t *testing.T) {
 	if i, _ := vout.Shard(); i == 0 {
 		c01LegacyStore(t, res)
 	}
+	if i, n := vout.Shard(); i == 1%n {
+		c01KeyringRecord(t, res)
+	}
 	// the long keys differ only in their last byte, after 305 / 1205 common bytes:
 	// binding that covers only a prefix of the storage key lets them be swapped
 	keys := []string{"k", "a/b", "a/c", "core/x",
@@ -217,7 +220,13 @@ func TestVerifC01Tamper(t *testing.T) {
 							}
 						}
 						if err == nil && bytes.Equal(got, want) && !bytes.Equal(mutated, stored[k]) {
-							res.Add("mutations_still_authentic", 1) // e.g. nothing (cannot happen for GCM) -- counted for vacuity
+							// "reading an entry whose stored bytes were altered, truncated, re-encoded with
+							// another format/term header ... fails with an error": every byte of a record is
+							// authenticated or checked (term, format byte, nonce, ciphertext, tag), so an
+							// altered record that still reads back - even with the right value - means some
+							// part of it is not verified
+							res.Add("mutations_still_authentic", 1)
+							res.Violate("c01:tamper:"+kind+":altered-record-read-without-error", fmt.Sprintf("%s key=%s %s: the stored bytes were altered (%x... -> %x...), yet the read returned the value without an error", cfg, k, kind, stored[k][:5], mutated[:min(5, len(mutated))]), map[string]interface{}{"cfg": cfg, "key": k, "mutation": kind})
 						}
 						res.Distinct("nontrivial", fmt.Sprintf("%d|%d|%v|%s|%s|err=%v", version, term, txPath, vname, kind, err != nil))
 					}
@@ -265,6 +274,112 @@ func TestVerifC01Tamper(t *testing.T) {
 						_ = inm.Put(c10ctx, &physical.Entry{Key: k, Value: rec})
 					}
 				}
+			}
+		}
+	}
+}
+
+// c01KeyringRecord: the keyring record itself (core/keyring, written by the barrier and
+// read by Unseal and ReloadKeyring on paths of their own) under every single-bit flip,
+// every format-byte and term rewrite, truncations and extensions: a fresh barrier must
+// refuse to unseal from the altered record and a live one must refuse to reload it.
+// After one rotation (term 2) and in both record formats.
+func c01KeyringRecord(t *testing.T, res *vout.Result) {
+	for _, version := range []byte{AESGCMVersion1, AESGCMVersion2} {
+		for _, rotate := range []bool{false, true} {
+			inm, err := inmem.NewInmem(nil, log.NewNullLogger())
+			if err != nil {
+				t.Fatal(err)
+			}
+			b := c10Raw(NewAESGCMBarrier(inm, nil))
+			b.currentAESGCMVersionByte = version
+			rk, _ := b.GenerateKey()
+			if err := b.Initialize(c10ctx, rk, nil); err != nil {
+				t.Fatal(err)
+			}
+			if err := b.Unseal(c10ctx, rk); err != nil {
+				t.Fatal(err)
+			}
+			b.currentAESGCMVersionByte = version
+			if rotate {
+				if _, err := b.Rotate(c10ctx); err != nil {
+					t.Fatal(err)
+				}
+			}
+			pe, _ := inm.Get(c10ctx, KeyringPath)
+			if pe == nil {
+				t.Fatalf("harness: no keyring record")
+			}
+			rec := append([]byte{}, pe.Value...)
+			cfg := fmt.Sprintf("keyring record format=%d rotated=%v", rec[4], rotate)
+			try := func(kind string, mutated []byte) {
+				_ = inm.Put(c10ctx, &physical.Entry{Key: KeyringPath, Value: mutated})
+				res.Add("evaluations", 1)
+				res.Add("keyring_record_mutations", 1)
+				var uerr, rerr error
+				func() {
+					defer func() {
+						if r := recover(); r != nil {
+							uerr = fmt.Errorf("PANIC: %v", r)
+							res.Violate("c01:tamper:keyring:panic", fmt.Sprintf("%s %s: Unseal panicked: %v", cfg, kind, r), nil)
+						}
+					}()
+					fresh := c10Raw(NewAESGCMBarrier(inm, nil))
+					uerr = fresh.Unseal(c10ctx, rk)
+					if uerr == nil {
+						_ = fresh.Seal()
+					}
+				}()
+				func() {
+					defer func() {
+						if r := recover(); r != nil {
+							rerr = fmt.Errorf("PANIC: %v", r)
+							res.Violate("c01:tamper:keyring:panic", fmt.Sprintf("%s %s: ReloadKeyring panicked: %v", cfg, kind, r), nil)
+						}
+					}()
+					rerr = b.ReloadKeyring(c10ctx)
+				}()
+				if uerr == nil {
+					res.Violate("c01:tamper:keyring:"+kind+":unsealed-from-altered-record", fmt.Sprintf("%s %s: a fresh barrier unsealed from the altered keyring record without an error", cfg, kind), map[string]interface{}{"cfg": cfg, "mutation": kind})
+				}
+				if rerr == nil {
+					res.Violate("c01:tamper:keyring:"+kind+":reloaded-altered-record", fmt.Sprintf("%s %s: the live barrier reloaded the altered keyring record without an error", cfg, kind), map[string]interface{}{"cfg": cfg, "mutation": kind})
+				}
+				res.Distinct("nontrivial", fmt.Sprintf("keyring|%d|%v|%s|%v|%v", version, rotate, kind, uerr != nil, rerr != nil))
+			}
+			for bit := 0; bit < len(rec)*8; bit++ {
+				m := append([]byte{}, rec...)
+				m[bit/8] ^= 1 << (bit % 8)
+				try("bitflip", m)
+			}
+			for _, nv := range []byte{0, 1, 2, 3, 255} {
+				if nv != rec[4] {
+					m := append([]byte{}, rec...)
+					m[4] = nv
+					try("version-rewrite", m)
+				}
+			}
+			for _, nt := range []uint32{0, 2, 3, 0xffffffff} {
+				if nt != binary.BigEndian.Uint32(rec[:4]) {
+					m := append([]byte{}, rec...)
+					binary.BigEndian.PutUint32(m[:4], nt)
+					try("term-rewrite", m)
+				}
+			}
+			for _, l := range []int{0, 1, 4, 5, 17, 33, len(rec) - 1} {
+				if l < len(rec) {
+					try("truncate", append([]byte{}, rec[:l]...))
+				}
+			}
+			try("extend", append(append([]byte{}, rec...), 0x00))
+			// restore and make sure the genuine record still works (vacuity guard)
+			_ = inm.Put(c10ctx, &physical.Entry{Key: KeyringPath, Value: rec})
+			fresh := c10Raw(NewAESGCMBarrier(inm, nil))
+			if err := fresh.Unseal(c10ctx, rk); err != nil {
+				t.Fatalf("harness: the genuine keyring record does not unseal: %v", err)
+			}
+			if err := b.ReloadKeyring(c10ctx); err != nil {
+				t.Fatalf("harness: the genuine keyring record does not reload: %v", err)
 			}
 		}
 	}
